@@ -193,6 +193,8 @@ Proof.
       destruct (h_class h) as [| | | |b| |]; try discriminate Hq. injection Hq as <-.
       cbn [jfmt bind]. rewrite M. exists [qual a b]. split; [reflexivity | left; reflexivity].
     + apply generic_contributes; auto.
-  - cbn [contributes]. rewrite KV. cbn [ukind_of]. unfold fn_unsafe, function_name. rewrite KV, Jm, Jf. cbn [bind].
+  - cbn [contributes]. rewrite KV. cbn [ukind_of]. unfold fn_unsafe, function_name. rewrite KV, Jm. cbn [bind].
+    assert (Sm : exists a, m = JStr a) by (unfold jqual in Hq; destruct m; try discriminate Hq; eauto).
+    destruct Sm as [a ->]. rewrite Jf. cbn [bind].
     rewrite Hq. cbn [bind]. rewrite M. exists [nm]. split; [reflexivity | left; reflexivity].
 Qed.
